@@ -3,6 +3,7 @@ package rel
 import (
 	"context"
 	"fmt"
+	"github.com/arr-ai/hash"
 	"reflect"
 
 	"github.com/arr-ai/frozen"
@@ -75,11 +76,14 @@ func NewBool(b bool) Set {
 
 // Hash computes a hash for a genericSet.
 func (s GenericSet) Hash(seed uintptr) uintptr {
-	h := seed
+	// Hash the members with the caller's seed and mix the result, so that a set never hashes like
+	// its only member (or like a set nested one level deeper). frozen.Set treats equal 128-bit
+	// hashes as proof of equality, so structural collisions here become wrong answers from =.
+	var h uintptr
 	for e := s.Enumerator(); e.MoveNext(); {
-		h ^= e.Current().Hash(0)
+		h ^= e.Current().Hash(seed)
 	}
-	return h
+	return hash.Uintptr(h, seed)
 }
 
 // Equal tests two Sets for equality. Any other type returns false.
